@@ -64,6 +64,8 @@ def run_case(case):
                           crops.read_batch(root, name, i)] for i in ids}
         finished = set()
         failing = set()
+        cur_kind = [kind]
+        kind_of = {}
         interesting = False
         checked_after_interesting = False
         qcount = [case.get('qrot', 0)]
@@ -109,7 +111,7 @@ def run_case(case):
             for i in on_disk:
                 with open(crops.result_path(root, name, i), "rb") as f:
                     res = pickle.load(f)
-                want = tuple(models.result_of(kind, {"a": a})
+                want = tuple(models.result_of(kind_of.get(i, kind), {"a": a})
                              for a in batch_vals[i])
                 require(models.deep_eq(res, want), "result-content",
                         f"after {tag}: result {i} holds {res!r:.200}")
@@ -161,6 +163,8 @@ def run_case(case):
                         f"{tag}: batches {seq}, failing settings "
                         f"{sorted(failing)}, raised={raised}")
                 finished |= set(will_finish)
+                for i_ in will_finish:
+                    kind_of[i_] = cur_kind[0]
                 if fails_at is not None:
                     interesting = True
                     checked_after_interesting = False
@@ -219,9 +223,19 @@ def run_case(case):
                     crop = x.Crop(name=name, parent_dir=root)
             elif o == "resow":
                 with under_test("re-sow"):
-                    if op.get("fresh"):
+                    if op.get("new_fn"):
+                        # the user tweaked the function: everything grown
+                        # from now on must come from the new one
+                        cur_kind[0] = {"int": "str", "str": "ndarray",
+                                       "ndarray": "int"}[cur_kind[0]]
+                        fn2 = functools.partial(
+                            models.flaky_fn, _xv=(failfile, cur_kind[0]))
+                        crop = x.Crop(fn=fn2, name=name, parent_dir=root,
+                                      **({spec[0]: spec[1]} if spec else {}))
+                    elif op.get("fresh"):
                         crop = x.Crop(fn=fn, name=name, parent_dir=root,
                                       **({spec[0]: spec[1]} if spec else {}))
+                        cur_kind[0] = kind
                     sow(crop)
                 require(crops.batch_ids(root, name) == ids,
                         "resow-changed-batches", "batch ids changed")
@@ -266,7 +280,8 @@ def strategy(draw):
         st.fixed_dictionaries({"op": st.just("check_bad")}),
         st.fixed_dictionaries({"op": st.just("reload")}),
         st.fixed_dictionaries({"op": st.just("resow"),
-                               "fresh": st.booleans()}),
+                               "fresh": st.booleans(),
+                               "new_fn": st.sampled_from([False, True])}),
     )
     return {"N": N, "spec": spec,
             "kind": draw(st.sampled_from(["int", "str", "ndarray"])),
